@@ -531,6 +531,9 @@ class Contract(object):
         """replace a call by the contract: assert pre, raise per clause,
         assign the defining posts, havoc, assume ensures"""
         ctx = I.ctx
+        if self.raise_ensures:
+            # the contract constrains the raised exception (error codes): a call site needs the real exception object, so the body is interpreted there
+            return NotImplemented
         covered = set(p.key for p, _ in self.post) | set(p.key for p, _ in self.havoc)
         if any(p.key not in covered for p in self.modifies) or (self.result_new is None and self.ensures and not any(p.is_result for p, _ in self.post)
                                                                 and not any(p.is_result for p, _ in self.havoc) and self._mentions_result()):
